@@ -1018,6 +1018,9 @@ func jobsFor(thorough, race bool) []job {
 		}
 		switch {
 		case !thorough:
+			if n == "keyupdate-read-write" && !race {
+				pb = 1
+			}
 		case n == "fresh-write-read-state" && !race:
 			// 50k-76k schedules at bound 1: bound 2 is out of reach; fresh-read-write goes there instead
 		case race && (n == "ticket-read-write-state" || n == "write-write-big"):
@@ -1032,7 +1035,13 @@ func jobsFor(thorough, race bool) []job {
 			if (n == "keyupdate-read-write" || n == "ticket-read-write-state") && v != tls.VersionTLS13 {
 				continue
 			}
-			if n == "fresh-read-write" && !thorough {
+			// quick: the two-thread fresh-connection scenario; the three-thread one (50k-76k schedules per version at
+			// bound 1) and key update at bound 2 (74k) are thorough-only, so that the quick tier also completes on a
+			// loaded machine
+			if n == "fresh-write-read-state" && !thorough && !race {
+				continue
+			}
+			if n == "fresh-read-write" && !thorough && race {
 				continue
 			}
 			pb := pbFor(n)
